@@ -7,7 +7,7 @@ SymScalar (symbolic JSON type tag and value).
 import json
 import os
 
-from sx.values import (json_identical, land, lnot, implies, py_equal, snapshot,
+from sx.values import (json_identical, unchanged, land, lnot, implies, py_equal, snapshot,
                        has_symbolic)
 from gen import docs, pools
 from oracles.refpatch import refpatch, RefPatchError
@@ -49,8 +49,8 @@ def roundtrip(E, a, b, props, known, differ=None, patcher=None, alias_known=True
     E.goal("nested-patch", any(e.op == "patch" for e in d))
     E.observe("diff", d)
     if c13:
-        E.check("diff-leaves-a-unchanged", json_identical(a, sa))
-        E.check("diff-leaves-b-unchanged", json_identical(b, sb))
+        E.check("diff-leaves-a-unchanged", unchanged(a, sa))
+        E.check("diff-leaves-b-unchanged", unchanged(b, sb))
         sh = shared_containers(d, [("a", a)])
         E.check("diff-shares-no-container-with-a", not sh, info=sh[:3])
         sh = shared_containers(d, [("b", b)])
@@ -88,8 +88,8 @@ def roundtrip(E, a, b, props, known, differ=None, patcher=None, alias_known=True
                 E.check("empty-diff=>identical", json_identical(a, b),
                         info="diff is empty but documents serialise differently")
         if c13:
-            E.check("patch-leaves-a-unchanged", json_identical(a, sa))
-            E.check("patch-leaves-diff-unchanged", json_identical(d, sd))
+            E.check("patch-leaves-a-unchanged", unchanged(a, sa))
+            E.check("patch-leaves-diff-unchanged", unchanged(d, sd))
             sh = shared_containers(r2, [("a", a)])
             E.check("patched-shares-no-container-with-a", not sh, info=sh[:3])
             sh = shared_containers(r2, [("diff", d)])
